@@ -18,6 +18,7 @@ import (
 	"context"
 	"errors"
 	"fmt"
+	"hash/fnv"
 	"net/http"
 	"net/http/httptest"
 	"os"
@@ -28,6 +29,7 @@ import (
 	"strings"
 	"sync"
 	"testing"
+	"time"
 
 	"github.com/prometheus/client_golang/prometheus"
 	"github.com/prometheus/common/model"
@@ -101,7 +103,28 @@ func promURI() string {
 		mux.HandleFunc("/api/v1/metadata", func(w http.ResponseWriter, r *http.Request) {
 			ok(w, `{"status":"success","data":{}}`)
 		})
-		promSrv = httptest.NewServer(mux)
+		// /partial/<mask>/...: the same API, but query and query_range answer 504 when the
+		// expression hashes into the 4-bit mask (a main server that is partially unavailable)
+		promSrv = httptest.NewServer(http.HandlerFunc(func(w http.ResponseWriter, r *http.Request) {
+			if rest, ok := strings.CutPrefix(r.URL.Path, "/partial/"); ok {
+				maskStr, path, _ := strings.Cut(rest, "/")
+				mask := 0
+				_, _ = fmt.Sscanf(maskStr, "%d", &mask)
+				r.URL.Path = "/" + path
+				if strings.HasSuffix(path, "api/v1/query") || strings.HasSuffix(path, "api/v1/query_range") {
+					_ = r.ParseForm()
+					h := fnv.New32a()
+					_, _ = h.Write([]byte(r.Form.Get("query")))
+					if mask&(1<<(h.Sum32()%4)) != 0 {
+						time.Sleep(5 * time.Millisecond)
+						w.WriteHeader(http.StatusGatewayTimeout)
+						_, _ = w.Write([]byte("504 Gateway Timeout\n"))
+						return
+					}
+				}
+			}
+			mux.ServeHTTP(w, r)
+		}))
 	})
 	return promSrv.URL
 }
@@ -780,7 +803,7 @@ func genSettings(t *rapid.T) []Setting {
 func genBinCase(layer string) func(t *rapid.T) Case {
 	return func(t *rapid.T) Case {
 		c := Case{Layer: layer}
-		online := rapid.IntRange(0, 2).Draw(t, "online") == 0
+		online := rapid.IntRange(0, 4).Draw(t, "online") < 2
 		c.Input = c05.GenInput(t, genOpts(online, true))
 		if !online {
 			c.Offline = rapid.Bool().Draw(t, "offline") || c.Input.ClosedProm()
